@@ -64,6 +64,8 @@ instance : Inhabited SE := ⟨.noneSer⟩
 
 inductive Backend
   | pyBinary | matlabBinary | pyNdjson
+  /-- the template compositions of the generated C++ `binary/protocols.cc` (typeRwFunction in cpp/binary/binary.go) -/
+  | cppBinary
   deriving DecidableEq, Repr
 
 def Backend.reversesFixedDims : Backend → Bool
